@@ -237,6 +237,17 @@ theorem init_order_once_of_up (cfg : Cfg) (fuel : Nat) (sched : List Act) (pick 
     InitOrderOnce (run cfg fuel sched pick).st.modules (run cfg fuel sched pick).log :=
   run_init_order_once cfg fuel sched pick herr hoof
 
+/-- ... and every declared module is one of them: in a node that came up every module the configuration declares exists
+(so `init_order_once_of_up` covers it).  Still missing for `init_order_once_statement`: that a clean configuration
+produces no error, and the existence of the modules the Pinatas produce and of the automatic communicators. -/
+theorem declared_modules_exist (cfg : Cfg) (fuel : Nat) (sched : List Act) (pick : List Name → Nat)
+    (herr : (run cfg fuel sched pick).st.errors = []) (hoof : (run cfg fuel sched pick).st.oof = false) :
+    ∀ c ∈ cfg.mods, c.name ∈ (run cfg fuel sched pick).st.modules := by
+  rw [(run_log cfg fuel sched pick).1] at herr hoof ⊢
+  obtain ⟨hst, hcore⟩ := startup_core cfg fuel herr
+  rw [hst] at hoof ⊢
+  exact declared_created cfg fuel hcore hoof
+
 def init_order_once_statement : Prop :=
   ∀ (cfg : Cfg) (fuel : Nat) (sched : List Act) (pick : List Name → Nat),
     let r := run cfg fuel sched pick
@@ -278,6 +289,39 @@ def bad_attachment_reported_statement : Prop :=
     r.st.oof = false →
     (badAttachmentB cfg r.st.ioDict = true → r.st.errors ≠ []) ∧
     NoHalfStart ⟨r.st.modules, r.st.errors, r.log, r.st.ioDict, []⟩
+
+/-- parameter values the configuration gets wrong are "reported as a configuration error instead of a half-started
+node" as well: a declared module with a configured value that is not of the parameter's datatype, or without a value
+that is required (`needscfg`) — the two complaints of `Module._handle_writes` — makes the node report an error (and then,
+by `no_half_start`, nothing is started), in every configuration with distinct module names and static Pinatas. -/
+theorem rejected_parameter_reported (cfg : Cfg) (fuel : Nat) (sched : List Act) (pick : List Name → Nat)
+    (hsp : StaticPinatas cfg) (hoof : (run cfg fuel sched pick).st.oof = false)
+    (hnd : (names (allMods cfg (run cfg fuel sched pick).st.ioDict)).Nodup)
+    (c : ModCfg) (hc : c ∈ cfg.mods) (hw : c.params.any paramWrong = true) :
+    (run cfg fuel sched pick).st.errors ≠ [] := by
+  intro herr
+  rw [(run_log cfg fuel sched pick).1] at hoof herr hnd
+  obtain ⟨hst, hcore⟩ := startup_core cfg fuel herr
+  rw [hst] at hoof hnd
+  have hm := declared_created cfg fuel hcore hoof c hc
+  have hcA : c ∈ allMods cfg (core cfg fuel).ioDict := by
+    rw [allMods_eq]; exact List.mem_append_left _ (List.mem_append_left _ hc)
+  have hrej := (linked_core cfg hsp fuel hcore hoof hnd c hcA hm).2.2
+  have : c.params.any paramWrong = c.params.any paramRejected := by
+    congr 1; funext q; exact paramWrong_eq q
+  rw [this, hrej] at hw
+  cases hw
+
+/-- hypotheses met: a value that is not of the datatype on a module another one uses; the node is rejected -/
+def rejM : ModCfg := { (default : ModCfg) with name := "m", params := [{ name := "w0", cfgValue := some 1, cfgBad := true }] }
+def rejU : ModCfg := { (default : ModCfg) with name := "u", atts := [⟨"a0", some "m", true, 0⟩], touchInit := ["a0"] }
+def rejCfg : Cfg := { mods := [rejU, rejM], dyn := [] }
+
+example : StaticPinatas rejCfg ∧ (run rejCfg 20 [] (fun _ => 0)).st.oof = false ∧
+    (names (allMods rejCfg (run rejCfg 20 [] (fun _ => 0)).st.ioDict)).Nodup ∧ rejM.params.any paramWrong = true ∧
+    (run rejCfg 20 [] (fun _ => 0)).log = [Ev.early "u", Ev.init "u", Ev.exit] := by
+  refine ⟨by unfold StaticPinatas; decide, ?_⟩
+  decide +kernel
 
 /-- full statement, against the module list of the *configuration*.  (The two well-formedness hypotheses are what a
 Python `dict` guarantees — module names and parameter names are keys; without them the clause is false for trivial
@@ -449,7 +493,7 @@ theorem configuration_linked (cfg : Cfg) (fuel : Nat) (sched : List Act) (pick :
   intro c hc p hp
   obtain ⟨hcA, hcm⟩ := List.mem_filter.mp hc
   have hm : c.name ∈ (core cfg fuel).modules := by simpa using hcm
-  obtain ⟨hsim, hreg⟩ := linked_core cfg hsp fuel hcore hoof hnd c hcA hm
+  obtain ⟨hsim, hreg, -⟩ := linked_core cfg hsp fuel hcore hoof hnd c hcA hm
   have hw : c.writes = startParams c := (handle_writes_registers_start_values c).2
   have hpw : p ∈ c.writes := by rw [hw]; exact hp
   obtain ⟨t, ht, hmem⟩ := hreg (needsPoll_of_writes c p hpw)
